@@ -45,7 +45,9 @@ def shapes():
     op('dollar', lambda i, n: DOLLAR, lambda i, n: ('-', DOLLAR, ('*', 2, W_)))
     op('ownjump', lambda i, n: ('+', L(i), W_), lambda i, n: L(0, 1))
     op('const', lambda i, n: ('id', 'c0'), lambda i, n: ('+', nxt(i, n), ('*', ('id', 'c1'), W_)))
-    op('neg', lambda i, n: ('-', L(0, 1), ('*', 4, W_)), None)  # negative / out-of-range flip word unless far from 0
+    op('neg', lambda i, n: ('-', L(0, 1), ('*', 4, W_)), None)
+    op('jump-2^w', zero, lambda i, n: ('+', ('<<', 1, W_), ('*', 2, W_)))  # a jump word of 2^w + 2w: does not fit (a relative-jump file version must not wrap it)
+    op('jump-neg', zero, lambda i, n: ('-', L(0, 1), ('*', 2, W_)))        # a negative jump word unless far from 0  # negative / out-of-range flip word unless far from 0
 
     def wf(name, a, v, r):
         S.append((name, lambda i, n, a=a, v=v, r=r: ('wflip', a(i, n), v(i, n), r(i, n) if r else None)))
@@ -58,6 +60,7 @@ def shapes():
     wf('wf-0', first, lambda i, n: 0, None)
     wf('wf-top', first, lambda i, n: ('<<', 1, ('-', W_, 1)), None)
     wf('wf-all', first, lambda i, n: ('-', ('<<', 1, W_), 1), nxt)
+    wf('wf-ret-2^w', first, lambda i, n: 6, lambda i, n: ('+', ('<<', 1, W_), ('*', 4, W_)))  # a return address that does not fit
     for k in (1, 2, 3, 4, 6):
         S.append((f'pad{k}', lambda i, n, k=k: ('pad', k)))
     for kind in ('adjacent', 'gap', 'overlap0', 'unaligned', 'walign', 'huge'):
@@ -468,7 +471,7 @@ def main():
     cov = {
         'evaluations': total.get('assemblies', 0),
         'distinct_nontrivial': total.get('assembled_ok', 0),
-        'rule': 'evaluations = assemblies of one statement sequence at one width and version (sequences are distinct tuples over 27 shapes); '
+        'rule': f'evaluations = assemblies of one statement sequence at one width and version (sequences are distinct tuples over {len(SHAPES)} shapes); '
                 'non-trivial = the layout is possible, the program assembled and its image was compared statement by statement with every '
                 'wflip chain executed',
         'samples': samples or [{'note': 'none'}],
@@ -477,7 +480,7 @@ def main():
         'programs_with_wflip_checked': total.get('with_wflip_ok', 0),
         'multi_segment_programs_checked': total.get('multi_segment_ok', 0),
         'ambiguous_rejected': total.get('ambiguous_rejected', 0),
-        'bounds': {'shapes': [s[0] for s in SHAPES], 'depth': 4 if args.tier == 'thorough' else '3 over all 27 shapes; depth 4 over a 12-shape core and depth 5 over a 6-shape core; + a 1/48 slice of full depth 4 chosen by VERIF_SEED',
+        'bounds': {'shapes': [s[0] for s in SHAPES], 'depth': 4 if args.tier == 'thorough' else f'3 over all {len(SHAPES)} shapes; depth 4 over a 14-shape core and depth 5 over a 6-shape core; + a 1/48 slice of full depth 4 chosen by VERIF_SEED',
                    'widths': [8, 16, 32, 64]},
         'exhaustive': not vac,
     }
